@@ -14,10 +14,10 @@ func init() { register("leid", "C08", runLeid) }
 // literal "earliest"), then one subscribe per combination of the three carriers of the requested id
 // x requested id class, on both transports, compat on/off — through the real SubscribeHandler.
 func runLeid(c *h.Ctx, r *h.Report) {
-	r.Rule = "a history of 0-12 publishes (retention size in {0,1,3}; ids explicit, possibly repeated ([v1 v2 v1]: negotiation resumes after the FIRST occurrence), one of them possibly the literal 'earliest'), then subscribers for the 2^3 combinations of {Last-Event-ID header, lastEventID query, legacy Last-Event-ID query} x requested id in {first stored, middle, last, discarded by retention, unknown, 'earliest'} (different ids in different carriers so precedence is observable) x compat7 on/off x both transports, through the real handler; the Last-Event-ID response header and the replayed stream are compared with the model. Non-trivial = case with at least two carriers set to different ids or a history truncated by retention; distinct by content."
+	r.Rule = "a history of 0-12 publishes (retention size in {0,1,3}; ids explicit, possibly repeated ([v1 v2 v1]: negotiation resumes after the FIRST occurrence), one of them possibly the literal 'earliest'), then subscribers for the 2^3 combinations of {Last-Event-ID header, lastEventID query, legacy Last-Event-ID query} x requested id in {first stored, middle, last, discarded by retention, unknown, 'earliest'} (different ids in different carriers so precedence is observable) x compat7 on/off x both transports, in one Bolt case out of three with a hub restart before one of the negotiations, through the real handler; the Last-Event-ID response header and the replayed stream are compared with the model. Non-trivial = case with at least two carriers set to different ids or a history truncated by retention; distinct by content."
 	o := gen.NewOracle()
 	g := installCountingUUID()
-	n := c.Scale(40, 1500)
+	n := c.Scale(120, 1500)
 	star := claimsJSON("publish", []string{"*"}, "")
 	for i := 0; i < n; i++ {
 		rr := c.Rand.Fork()
@@ -55,9 +55,21 @@ func runLeid(c *h.Ctx, r *h.Report) {
 				return h.Pick(rr, ids)
 			}
 		}
+		// the hub restarted on its history file: negotiation right after a restart, before any new publication
+		restartAt := -1
+		if cs.Cfg.Bolt && rr.Chance(1, 3) {
+			restartAt = rr.Intn(8)
+			if rr.Bool() {
+				restartAt = 0
+			}
+		}
 		label := 0
 		nontrivial := cs.Size > 0 && uint64(np) > cs.Size
 		for mask := 0; mask < 8; mask++ {
+			if mask == restartAt {
+				cs.Ops = append(cs.Ops, hubOp{Op: "restart"})
+				r.Count("restart before a negotiation")
+			}
 			op := hubOp{Op: "sub", Label: label, Topics: []string{"*"}}
 			label++
 			if mask&1 != 0 {
